@@ -93,4 +93,17 @@ mod vx_harness {
         assert!(p(&w2.execute_fn) == e && p(&w2.instantiate_fn) == i && p(&w2.query_fn) == q);
         assert!(po(&w2.sudo_fn) == s && po(&w2.reply_fn) == r && w2.migrate_fn.is_some());
     }
+    // "defaults for the rest": a fresh wrapper has exactly the three supplied entry points, no optional one, no checksum
+    #[kani::proof]
+    fn new_has_no_optional_parts() {
+        let w = ContractWrapper::new(ex, ex, qu);
+        assert!(w.sudo_fn.is_none() && w.reply_fn.is_none() && w.migrate_fn.is_none());
+        assert!(w.checksum.is_none());
+    }
+    #[kani::proof]
+    fn new_with_empty_has_no_optional_parts() {
+        let w: ContractWrapper<Empty, Empty, Empty, StdError, StdError, StdError> = ContractWrapper::new_with_empty(ex, ex, qu);
+        assert!(w.sudo_fn.is_none() && w.reply_fn.is_none() && w.migrate_fn.is_none());
+        assert!(w.checksum.is_none());
+    }
 }
